@@ -137,6 +137,13 @@ type Conn struct {
 	encTableSize     uint32
 	encTableSizeSeen uint32
 
+	// hdrBuf collects the header block that is currently arriving: a HEADERS
+	// frame and the CONTINUATION frames that follow it. Only one block can be
+	// in progress on a connection (RFC 7540 6.10). It belongs to the read loop.
+	hdrBuf       []byte
+	hdrStream    uint32
+	hdrEndStream bool
+
 	current Settings
 
 	// serverS belongs to the read loop once the handshake is over.
@@ -842,18 +849,67 @@ func (c *Conn) readLoop() {
 	}
 }
 
+// errHeaderDecoding marks an error that comes from the HPACK decoder rather than
+// from the rules a response has to obey. After one the dynamic table cannot be
+// trusted any more, so it ends the connection and not just the request.
+type errHeaderDecoding struct{ err error }
+
+func (e errHeaderDecoding) Error() string { return "decoding the header block: " + e.err.Error() }
+func (e errHeaderDecoding) Unwrap() error { return e.err }
+
 // dispatch hands a stream frame to the request waiting on it. It reports
 // whether the read loop should stop.
 func (c *Conn) dispatch(fr *FrameHeader) bool {
-	r, ok := c.loadReq(fr.Stream())
-	if !ok {
-		return false
+	// END_STREAM only exists on DATA and HEADERS frames.
+	endStream := fr.Flags().Has(FlagEndStream) &&
+		(fr.Type() == FrameData || fr.Type() == FrameHeaders)
+
+	// A header block is decoded as a whole, once END_HEADERS has arrived.
+	// Decoding each frame on its own failed any response whose block was cut
+	// inside a field, finished a request at END_STREAM on the HEADERS frame with
+	// the rest of its block still to come, and left the decoder out of step
+	// with the server for every later response.
+	isHeader := fr.Type() == FrameHeaders || fr.Type() == FrameContinuation
+	if isHeader {
+		if fr.Type() == FrameHeaders {
+			c.hdrStream = fr.Stream()
+			c.hdrEndStream = endStream
+			c.hdrBuf = c.hdrBuf[:0]
+		} else if fr.Stream() != c.hdrStream {
+			return false
+		}
+
+		c.hdrBuf = append(c.hdrBuf, fr.Body().(FrameWithHeaders).Headers()...)
+
+		if !fr.Flags().Has(FlagEndHeaders) {
+			return false
+		}
+
+		endStream = c.hdrEndStream
 	}
+
+	r, ok := c.loadReq(fr.Stream())
 
 	// A canceled or finished request has taken its Response back, so there is
 	// nowhere to put this frame. Drop the stream and carry on.
-	if !r.acquireFor(c, fr.Stream()) {
+	if ok && !r.acquireFor(c, fr.Stream()) {
 		c.dequeueReq(fr.Stream())
+
+		ok = false
+	}
+
+	if !ok {
+		// Nobody is waiting for it, a request that timed out for one, but a
+		// header block still has to go through the decoder: the entries it adds
+		// to the dynamic table are referred to by later responses.
+		if isHeader {
+			var de errHeaderDecoding
+			if err := c.readHeader(c.hdrBuf, nil); errors.As(err, &de) {
+				c.setLastErr(err)
+
+				return true
+			}
+		}
 
 		return false
 	}
@@ -864,14 +920,19 @@ func (c *Conn) dispatch(fr *FrameHeader) bool {
 
 	err := c.readStream(fr, r.Response)
 	if err == nil {
-		if fr.Flags().Has(FlagEndStream) {
+		if endStream {
 			c.finish(r, fr.Stream(), nil)
 		}
 	} else {
 		c.finish(r, fr.Stream(), err)
 	}
 
-	if err != nil && errors.Is(err, FlowControlError) {
+	var de errHeaderDecoding
+	if err != nil && (errors.Is(err, FlowControlError) || errors.As(err, &de)) {
+		if errors.As(err, &de) {
+			c.setLastErr(err)
+		}
+
 		return true
 	}
 
@@ -1464,8 +1525,8 @@ func (c *Conn) handlePing(ping *Ping) {
 func (c *Conn) readStream(fr *FrameHeader, res *fasthttp.Response) (err error) {
 	switch fr.Type() {
 	case FrameHeaders, FrameContinuation:
-		h := fr.Body().(FrameWithHeaders)
-		err = c.readHeader(h.Headers(), res)
+		// dispatch only gets here with the complete block in hdrBuf
+		err = c.readHeader(c.hdrBuf, res)
 	case FrameResetStream:
 		// The server gave up on the stream. Without this the request would sit
 		// there until MaxResponseTime, or forever if that check is disabled.
@@ -1508,8 +1569,16 @@ func (c *Conn) updateWindow(streamID uint32, size int) {
 	c.writeOut(fr)
 }
 
+// readHeader decodes a complete header block into res. res is nil when nobody
+// is waiting for the response; the block is decoded all the same. A field that
+// breaks the rules for a response does not stop the decoding either: the error
+// is reported once the whole block has been through the decoder.
 func (c *Conn) readHeader(b []byte, res *fasthttp.Response) error {
-	var err error
+	var (
+		err     error
+		invalid error
+	)
+
 	hf := AcquireHeaderField()
 	defer ReleaseHeaderField(hf)
 
@@ -1517,10 +1586,20 @@ func (c *Conn) readHeader(b []byte, res *fasthttp.Response) error {
 
 	var regularSeen bool
 
+	reject := func(e error) {
+		if invalid == nil {
+			invalid = e
+		}
+	}
+
 	for len(b) > 0 {
 		b, err = dec.Next(hf, b)
 		if err != nil {
-			return err
+			return errHeaderDecoding{err}
+		}
+
+		if invalid != nil || res == nil {
+			continue
 		}
 
 		// A response carries exactly one pseudo-header, :status, and it must
@@ -1528,16 +1607,19 @@ func (c *Conn) readHeader(b []byte, res *fasthttp.Response) error {
 		// https://httpwg.org/specs/rfc7540.html#rfc.section.8.1.2.4
 		if hf.IsPseudo() {
 			if regularSeen {
-				return errPseudoAfterRegular
+				reject(errPseudoAfterRegular)
+				continue
 			}
 
 			if !bytes.Equal(hf.KeyBytes(), StringStatus) {
-				return fmt.Errorf("invalid response pseudo-header %q", hf.KeyBytes())
+				reject(fmt.Errorf("invalid response pseudo-header %q", hf.KeyBytes()))
+				continue
 			}
 
 			n, err := parseUint(hf.ValueBytes())
 			if err != nil || n < 100 || n > 999 {
-				return errInvalidStatus
+				reject(errInvalidStatus)
+				continue
 			}
 
 			res.SetStatusCode(n)
@@ -1548,17 +1630,20 @@ func (c *Conn) readHeader(b []byte, res *fasthttp.Response) error {
 		regularSeen = true
 
 		if hasUpperCase(hf.KeyBytes()) {
-			return errUpperCaseHeader
+			reject(errUpperCaseHeader)
+			continue
 		}
 
 		if isConnectionSpecific(hf.KeyBytes()) {
-			return errConnectionSpecific
+			reject(errConnectionSpecific)
+			continue
 		}
 
 		if bytes.Equal(hf.KeyBytes(), StringContentLength) {
 			n, err := parseUint(hf.ValueBytes())
 			if err != nil {
-				return errInvalidContentLength
+				reject(errInvalidContentLength)
+				continue
 			}
 
 			res.Header.SetContentLength(n)
@@ -1567,7 +1652,7 @@ func (c *Conn) readHeader(b []byte, res *fasthttp.Response) error {
 		}
 	}
 
-	return nil
+	return invalid
 }
 
 var (
